@@ -158,6 +158,7 @@ class Sched:
         self.seq = 0                  # global sequence number of observable events
         self.by_ident: Dict[int, CThread] = {}
         self.on_stuck: Optional[Callable[[], None]] = None
+        self.signal_disposition: Dict[int, Any] = {}      # signal.signal() calls of the program
 
     # ---- threads ------------------------------------------------------
     def spawn(self, name: str, fn: Callable[[], None]) -> CThread:
@@ -261,6 +262,19 @@ class Sched:
         me.put_since_point = False
         ex = self.inject.pop((me.name, me.npoints), None)
         if ex is not None:
+            import signal as _sg
+            if isinstance(ex, KeyboardInterrupt) and \
+                    self.signal_disposition.get(int(_sg.SIGINT)) in (_sg.SIG_DFL,):
+                # the program has asked for the default action of SIGINT: the
+                # operator's interrupt ends the process at once - no exception,
+                # no cleanup, nothing still buffered reaches the disk
+                self.verdict = 'killed-by-signal'
+                self.blocked_at_end = []
+                for t_ in self.threads:
+                    if t_.name.startswith('main') and t_.exc is None:
+                        t_.exc = KeyboardInterrupt('process killed by SIGINT (SIG_DFL)')
+                self._abort_all()
+                raise Abort()
             raise ex
 
     def _thread_done(self, t: CThread) -> None:
@@ -773,6 +787,56 @@ class World:
             for v in list(vars(mod).values()):
                 if isinstance(v, type) and v.__module__ == mod.__name__:
                     adopt(v)
+        def record_signal(signum, handler):
+            old_ = sched.signal_disposition.get(int(signum), _signal.default_int_handler)
+            sched.signal_disposition[int(signum)] = handler
+            return old_
+        self._set(_signal, 'signal', record_signal)
+
+        # threads other than the player threads that the program starts
+        # (Thread(target=...)): controlled like the rest
+        nthreads = [0]
+
+        class ControlledThread:
+            def __init__(self_, group=None, target=None, name=None, args=(), kwargs=None, *, daemon=None):
+                if isinstance(self_, _threading.Thread):
+                    # `Thread.__init__(self, ...)` written out in a subclass of the real class
+                    _threading.Thread.__init__(self_, group=group, target=target, name=name, args=args,
+                                               kwargs=kwargs, daemon=daemon)
+                    return
+                self_._target, self_._args, self_._kwargs = target, args, kwargs or {}
+                self_.daemon = daemon
+                self_.name = name or f'Thread-x{nthreads[0]}'
+                self_._ct = None
+
+            def run(self_):
+                if self_._target is not None:
+                    self_._target(*self_._args, **self_._kwargs)
+
+            def start(self_):
+                sched.yield_point('thread.start', None)
+                nthreads[0] += 1
+                self_._ct = sched.spawn(f'worker{nthreads[0]}', self_.run)
+
+            def is_alive(self_):
+                sched.yield_point('is_alive', None)
+                return self_._ct is not None and self_._ct.state != 'done'
+
+            def join(self_, timeout=None):
+                if self_._ct is None:
+                    raise RuntimeError('cannot join thread before it is started')
+                if timeout is not None:
+                    sched.yield_point('join.timeout', None)
+                    return
+                sched.yield_point('join', None, lambda: self_._ct.state == 'done')
+        for mod in (smod, cmod):
+            if getattr(mod, 'Thread', None) is _threading.Thread:
+                self._set(mod, 'Thread', ControlledThread)
+            if getattr(mod, 'threading', None) is _threading:
+                class _T:                      # the module object, with Thread replaced
+                    def __getattr__(self_, n):
+                        return ControlledThread if n == 'Thread' else getattr(_threading, n)
+                self._set(mod, 'threading', _T())
         PT = smod.PlayerThread
 
         def start(pt):
